@@ -2,7 +2,8 @@
 From LV Require Import Base FS FSFacts LayerShared LayerSharedFacts LayerSharedGone LayerSharedTotal.
 From LV Require Import ImpPrims ImpTypes.
 From LVGen Require Import GenLayerShared GenLayerSharedImp.
-From LV Require LayerSbomsFacts ReadLayerFacts.
+From LV Require LayerSbomsFacts ReadLayerFacts Determinism RecreateModelFacts.
+From LV.Checks Require C11Hold C11Agree.
 
 Theorem c11_tables :
   rdr_checks_symlink = true /\ delete_layer_removes_sboms = true /\
@@ -253,3 +254,26 @@ Theorem c11_read_layer_legacy_refuted :
     = Some (File 420 (Raw [])).
 Proof. exact LV.ReadLayerFacts.read_layer_legacy_writes_through. Qed.
 Print Assumptions c11_read_layer_legacy_refuted.
+
+(* ---- the recreate operation as the stream compares it with BuildContext::uncached_layer: C11Agree.recreate_model
+   (read_layer; delete_layer; write_layer; read_layer, each regenerated from the source).  On ANY existing layer
+   directory -- whatever tree, permissions and links it holds, stale SBOM entries beside it -- with a regular
+   readable content-metadata file, the composed model ends Ok with exactly the deletion's state plus a fresh
+   directory and a fresh document; in that deletion's state nothing the layer owns exists and every path the layer
+   does not own is as before. *)
+Theorem c11_recreate_model_exact :
+  forall layers n s md m c res post,
+    valid_path layers -> valid_name n = true -> valid_fs s -> parent_closed s -> layers_ok s layers ->
+    LV.Determinism.simple_dir s layers ->
+    pget (layers ++ [n]) s = Some (Dir md) ->
+    pget (layers ++ [toml_name n]) s = Some (File m c) -> has_r m = true ->
+    (forall sx m, In sx (map LV.LayerSbomsFacts.sbom_suffix_of SBOM_FORMATS) -> pget (layers ++ [sbom_name n sx]) s <> Some (Dir m)) ->
+    exists s1,
+      gen_delete_layer layers n s = (s1, Ok tt) /\
+      LV.Checks.C11Agree.recreate_model (LV.Checks.C11Hold.mkCase s layers n LV.Checks.C11Hold.OpRecreate res post) =
+        (pset (layers ++ [toml_name n]) (File mode_file_default (Doc (Toml.TTbl []))) (pset (layers ++ [n]) (Dir mode_dir_default) s1), Ok tt) /\
+      (forall r, pget (layers ++ [n] ++ r) s1 = None) /\ pget (layers ++ [toml_name n]) s1 = None /\
+      (forall sx, In sx (map LV.LayerSbomsFacts.sbom_suffix_of SBOM_FORMATS) -> pget (layers ++ [sbom_name n sx]) s1 = None) /\
+      (forall q, owned (map LV.LayerSbomsFacts.sbom_suffix_of SBOM_FORMATS) layers n q = false -> pget q s1 = pget q s).
+Proof. exact LV.RecreateModelFacts.recreate_model_exact. Qed.
+Print Assumptions c11_recreate_model_exact.
